@@ -521,10 +521,12 @@ class MemOrchestrator(BaseOrchestrator):
     ) -> list["InvocationId"]:
         if not invocation_ids or status_filter is None:
             return []
+        # Unknown (e.g. already purged) ids match no status, as in the SQL backends
         return [
             inv_id
             for inv_id in invocation_ids
-            if self.get_invocation_status(inv_id) in status_filter
+            if inv_id in self.invocation_status_record
+            and self.get_invocation_status(inv_id) in status_filter
         ]
 
     def register_runner_heartbeats(
